@@ -90,8 +90,8 @@ prop("C02", level="exploration",
 def plan_c02(tier, seed):
     if tier == "quick":
         return shards("std-debug", "c02", 16, ["seed=%d" % seed, "cases=320"], timeout=600)
-    runs = shards("std-debug", "c02", 16, ["seed=%d" % seed, "cases=20000", "width=16", "maxsize=5"], timeout=3000)
-    runs += shards("std-release", "c02", 8, ["seed=%d" % (seed + 77), "cases=20000", "noexh"], timeout=3000)
+    runs = shards("std-debug", "c02", 16, ["seed=%d" % seed, "cases=400000", "width=18", "maxsize=6"], timeout=3400)
+    runs += shards("std-release", "c02", 16, ["seed=%d" % (seed + 77), "cases=1600000", "noexh", "addrs=120"], timeout=3400)
     return runs
 
 
@@ -162,10 +162,12 @@ def plan_c01(tier, seed):
     if tier == "quick":
         runs = shards("std-debug", "c01", 8, ["seed=%d" % seed, "cases=40000"], timeout=600, crash_is_violation=True)
         runs += shards("miri", "c01", 8, ["seed=%d" % seed, "cases=64", "depth=5"], timeout=900)
+        runs.append(Run("xen-debug", "c01", ["seed=%d" % (seed + 3), "cases=6000"], timeout=600, crash_is_violation=True))
         return runs
     runs = shards("std-debug", "c01", 16, ["seed=%d" % seed, "cases=1000000", "depth=16"], timeout=3400, crash_is_violation=True)
     runs += shards("std-release", "c01", 8, ["seed=%d" % (seed + 5), "cases=400000", "depth=16"], timeout=3400, crash_is_violation=True)
     runs += shards("asan", "c01", 8, ["seed=%d" % (seed + 9), "cases=100000", "depth=12"], timeout=3400)
+    runs += shards("xen-debug", "c01", 4, ["seed=%d" % (seed + 3), "cases=200000", "depth=16"], timeout=3400, crash_is_violation=True)
     runs += shards("miri", "c01", 16, ["seed=%d" % seed, "cases=4000", "depth=10"], timeout=3400)
     return runs
 
@@ -216,11 +218,13 @@ def plan_c04(tier, seed):
     if tier == "quick":
         runs = shards("std-debug", "c04", 8, ["seed=%d" % seed, "cases=8000"], timeout=600, crash_is_violation=True)
         runs += shards("std-release", "c04", 2, ["seed=%d" % (seed + 1), "cases=4000"], timeout=600, crash_is_violation=True)
+        runs.append(Run("xen-debug", "c04", ["seed=%d" % (seed + 3), "cases=1500"], timeout=600, crash_is_violation=True))
         runs += shards("miri", "c04", 8, ["seed=%d" % seed, "cases=24", "maxops=50", "nogrid"], timeout=900)
         return runs
     runs = shards("std-debug", "c04", 16, ["seed=%d" % seed, "cases=240000"], timeout=3400, crash_is_violation=True)
     runs += shards("std-release", "c04", 8, ["seed=%d" % (seed + 1), "cases=160000"], timeout=3400, crash_is_violation=True)
     runs += shards("asan", "c04", 8, ["seed=%d" % (seed + 2), "cases=40000"], timeout=3400)
+    runs += shards("xen-debug", "c04", 4, ["seed=%d" % (seed + 3), "cases=60000"], timeout=3400, crash_is_violation=True)
     runs += shards("miri", "c04", 16, ["seed=%d" % seed, "cases=1600", "maxops=60", "nogrid"], timeout=3400)
     runs.append(Run("std-release", "c04", ["seed=%d" % (seed + 4), "cases=300"], timeout=3400, tool="memcheck"))
     return runs
@@ -235,7 +239,7 @@ prop("C05", level="exploration",
      title="No tracked write leaves its pages clean (dirty tracking is sound)",
      technique="diff-driven frame monitor: all bytes and all bitmap bits of all regions are snapshotted around every operation; every byte whose value changed must be reported dirty by the owning region's bitmap at its own offset and by the accessor's own bitmap view; an access may never clear a mark",
      rule=_C0516_RULE,
-     assumptions=["raw routes (ptr_guard_mut, aligned_as_mut, get_atomic_ref used directly, get_host_address) are exempt by documentation and are not used for writing", "Xen build: Bitmap page size is fixed to the system page size there, covered by the xen-debug pass of the thorough tier at slice/region level only"],
+     assumptions=["raw routes (ptr_guard_mut, aligned_as_mut, get_atomic_ref used directly, get_host_address) are exempt by documentation and are not used for writing", "Xen build: the bitmap is created by the region constructor with the system page size, so the xen-debug pass covers Xen-UNIX regions with 4096-byte pages and the plain and Arc-sliced flavours only"],
      level_text="Diff-driven runtime oracle independent of what each call claims to have written, over thousands of histories x page sizes x bitmap flavours x derivation chains; held-on-observed.",
      level_note="A write whose payload equals the old contents is invisible to a diff; payloads are therefore generated as the bitwise complement of the current bytes.",
      design_ref="DESIGN.md §7 C05")
@@ -253,9 +257,11 @@ prop("C16", level="exploration",
 def _plan_c0516(tier, seed):
     if tier == "quick":
         runs = shards("std-debug", "c05", 8, ["seed=%d" % seed, "cases=8000"], timeout=600)
+        runs += shards("xen-debug", "c05", 2, ["seed=%d" % (seed + 3), "cases=2000"], timeout=600)
         return runs
     runs = shards("std-debug", "c05", 16, ["seed=%d" % seed, "cases=300000"], timeout=3400)
     runs += shards("std-release", "c05", 8, ["seed=%d" % (seed + 1), "cases=160000"], timeout=3400)
+    runs += shards("xen-debug", "c05", 4, ["seed=%d" % (seed + 3), "cases=80000"], timeout=3400)
     runs += shards("miri", "c05", 16, ["seed=%d" % seed, "cases=900", "maxops=40"], timeout=3400)
     return runs
 
@@ -296,9 +302,9 @@ FLOORS["C07"] = {"calls": 200_000, "distinct_nontrivial": 5000}
 prop("C13", level="exploration",
      title="Volatile stream adapters transfer data exactly like their std::io counterparts",
      technique="differential twin monitor: every ReadVolatile/WriteVolatile adapter call is mirrored live by the corresponding std::io call on an identical twin stream with an ordinary buffer; return value / error kind, landed bytes, remaining slice, cursor position, vector contents, file offset + contents and peer-received bytes are compared; arena canaries detect writes outside the given buffer; complete grid for the in-memory adapters",
-     rule="cases = (adapter, call sequence). Grid (complete): stream/sink length 0..20 x position {0,mid,len-1,len,len+1,u64::MAX-3,u64::MAX} x buffer length 0..20 x {up-to, exact} plus a second call, for &[u8], Cursor<&[u8]>, Cursor<Vec<u8>>, &mut [u8], Vec<u8>, Cursor<&mut [u8]>. Sequences of 1..12 calls with buffer lengths {0,1,2,7,8,9,15,16,17,24,100,300,4096} on the in-memory adapters and on File, BorrowedFd, UnixStream, OwnedFd over pipes (reader and writer roles). distinct key = (adapter, call, buffer-vs-available class, side of the 8-byte threshold, call index, std outcome); all non-trivial",
+     rule="cases = (adapter, call sequence). Grid (complete): stream/sink length 0..20 x position {0,mid,len-1,len,len+1,u64::MAX-3,u64::MAX} x buffer length 0..20 x {up-to, exact} plus a second call, for &[u8], Cursor<&[u8]>, Cursor<Vec<u8>>, &mut [u8], Vec<u8>, Cursor<&mut [u8]>. Sequences of 1..12 calls with buffer lengths {0,1,2,7,8,9,15,16,17,24,100,300,4096} on the in-memory adapters and on File, BorrowedFd, UnixStream, OwnedFd over pipes, TcpStream over loopback (reader and writer roles). distinct key = (adapter, call, buffer-vs-available class, side of the 8-byte threshold, call index, std outcome); all non-trivial",
      exhaustive_note="the in-memory adapter grid (lengths 0..20, 7 cursor positions, both call forms, two consecutive calls)",
-     assumptions=["the installed std is the reference (differential, so it tracks the toolchain)", "stream position and buffer contents after a FAILED exact call are unspecified by std and are not compared (only the error kind and containment are)", "TcpStream and Stdout adapters share the raw-fd code path of File/UnixStream and are not driven separately"],
+     assumptions=["the installed std is the reference (differential, so it tracks the toolchain)", "stream position and buffer contents after a FAILED exact call are unspecified by std and are not compared (only the error kind and containment are)", "TcpStream is driven over loopback (reads only request what is already queued, since a socket may legally return short); the Stdout adapter shares the raw-fd write path and is not driven (it would write into the monitor's own protocol stream)"],
      level_text="Differential runtime oracle against std::io, complete on a small grid and sampled on sequences incl. real descriptors; held-on-observed.",
      level_note="Trusts std::io as the specification.",
      design_ref="DESIGN.md §7 C13")
@@ -348,7 +354,7 @@ FLOORS["C14"] = {"executions_enumerated": 70_000, "fd_replays": 500, "distinct_n
 # ----------------------------------------------------------------------------------------------
 prop("C18", level="exploration",
      title="Zero-length accesses are successful no-ops at every layer",
-     technique="matrix monitor: (entry point x layer x address class x container x zero-sized type) enumerated completely; each cell runs under catch_unwind with a byte frame and a dirty-bitmap frame around it; GuestMemoryMmap with dirty tracking and MockMemory (default trait methods, region at 2^64-1) at guest level, GuestRegionMmap / MockRegion at region level, arena slices (empty, 1 byte, odd alignment, with byte-granular bitmap) and region slices at slice level; debug, release and Xen builds",
+     technique="matrix monitor: (entry point x layer x address class x container x zero-sized type) enumerated completely; each cell runs under catch_unwind with a byte frame and a dirty-bitmap frame around it; GuestMemoryMmap with dirty tracking and MockMemory (default trait methods, region at 2^64-1) at guest level, GuestRegionMmap / MockRegion at region level, arena slices (empty, null-based empty, 1 byte, odd alignment, with byte-granular bitmap) and region slices at slice level; debug, release and Xen builds (Xen-UNIX, and through the emulated devices: on-demand grant, advance-mapped grant and foreign regions)",
      rule="cells = entry points {write/read/write_slice/read_slice with empty buffers; write_obj/read_obj, get_ref.load/store, get_array_ref{copy_to,copy_from,load,store,ref_at} (n=0,1,5), copy_to/copy_from for [u8;0],[u16;0],[u64;0],[u128;0]; copy_to/copy_from with empty buffers of u8/u32/u64; empty slice-to-slice copies; zero-count read_volatile_from/read_exact_volatile_from/write_volatile_to/write_all_volatile_to with slice, cursor, Vec and file streams} x layers {slice, region, guest} x address classes {first/inside/last byte of each region, one before, one past, hole, 0, 2^63, 2^64-1; offsets 0, inside, last, len, len+1, 2^63, usize::MAX} x 7 fixed layouts (single, at 0, adjacent, hole, near top, top [mock], 1-byte regions) + random layouts. Every cell is distinct and non-trivial; judged = the statement pins it (empty-buffer / zero-sized-object forms at any address; zero-count stream forms and zero-sized element accessors at addresses valid for a non-empty access), others are recorded as notes",
      exhaustive_note="the complete matrix over the 7 fixed layouts and 10 containers",
      assumptions=["the element count returned by copy_to for zero-sized elements is not judged", "zero-count stream transfers at unmapped addresses are recorded, not judged"],
@@ -360,7 +366,8 @@ prop("C18", level="exploration",
 @plan("C18")
 def plan_c18(tier, seed):
     runs = [Run("std-debug", "c18", ["seed=%d" % seed, "cases=40"], timeout=600, crash_is_violation=True),
-            Run("std-release", "c18", ["seed=%d" % seed, "cases=40"], timeout=600, crash_is_violation=True)]
+            Run("std-release", "c18", ["seed=%d" % seed, "cases=40"], timeout=600, crash_is_violation=True),
+            Run("xen-debug", "c18", ["seed=%d" % seed, "cases=10"], timeout=600, crash_is_violation=True)]
     if tier == "thorough":
         runs += shards("std-debug", "c18", 8, ["seed=%d" % (seed + 1), "cases=4000"], timeout=3400, crash_is_violation=True)
         # no ASan pass: ASan instruments the zero-sized volatile load of VolatileRef<[T;0]>::load as
@@ -384,7 +391,7 @@ prop("C15", level="exploration",
 
 @plan("C15")
 def plan_c15(tier, seed):
-    n = 300 if tier == "quick" else 20000
+    n = 300 if tier == "quick" else 400000
     runs = [Run("std-debug", "c15", ["seed=%d" % seed, "cases=%d" % n], timeout=1800, crash_is_violation=True),
             Run("xen-debug", "c15", ["seed=%d" % seed], timeout=1800, crash_is_violation=True)]
     if tier == "thorough":
@@ -413,8 +420,8 @@ def plan_c17(tier, seed):
             shards("xen-debug", "c17", 4, ["seed=%d" % seed, "cases=320"], timeout=900, crash_is_violation=True)
     runs = [Run("std-debug", "c17", ["seed=%d" % seed, "cases=100000"], timeout=3000, crash_is_violation=True),
             Run("std-release", "c17", ["seed=%d" % seed, "cases=100000"], timeout=3000, crash_is_violation=True)]
-    runs += shards("xen-debug", "c17", 12, ["seed=%d" % seed, "cases=24000", "ops=40"], timeout=3400, crash_is_violation=True)
-    runs += shards("xen-release", "c17", 4, ["seed=%d" % (seed + 1), "cases=8000", "ops=40"], timeout=3400, crash_is_violation=True)
+    runs += shards("xen-debug", "c17", 12, ["seed=%d" % seed, "cases=600000", "ops=40"], timeout=3400, crash_is_violation=True)
+    runs += shards("xen-release", "c17", 4, ["seed=%d" % (seed + 1), "cases=200000", "ops=40"], timeout=3400, crash_is_violation=True)
     return runs
 
 
@@ -475,8 +482,8 @@ def plan_c06(tier, seed):
     if tier == "quick":
         return [Run("std-debug", "c06", ["seed=%d" % seed, "tear=200000"], timeout=600, crash_is_violation=True),
                 Run("std-release", "c06", ["seed=%d" % seed, "tear=400000"], timeout=600, crash_is_violation=True)]
-    return [Run("std-debug", "c06", ["seed=%d" % seed, "tear=2000000"], timeout=3000, crash_is_violation=True),
-            Run("std-release", "c06", ["seed=%d" % seed, "tear=4000000"], timeout=3000, crash_is_violation=True),
+    return [Run("std-debug", "c06", ["seed=%d" % seed, "tear=20000000"], timeout=3000, crash_is_violation=True),
+            Run("std-release", "c06", ["seed=%d" % seed, "tear=60000000"], timeout=3000, crash_is_violation=True),
             Run("xen-debug", "c06", ["seed=%d" % seed, "tear=400000"], timeout=3000, crash_is_violation=True)]
 
 
